@@ -123,6 +123,56 @@ ENGINES.append({"name": "twzmon.diff", "path": "twzmon/diffjobs.py", "serves_pro
                 "kind_free_text": "program generator + double execution of the same source text (runtime monitoring, differential oracle)"})
 NOT_APPLICABLE[:] = [x for x in NOT_APPLICABLE if x["property_id"] not in CHECKS]
 
+TB_HIST = (
+    "trusted: the sequential model of the instance state (setup id -> first value / nothing else survives a call) and the plain-Python "
+    "reference; operations are recorded at the client boundary (call before invoke, return after reply); decided on generated histories only"
+)
+CHECKS.update({
+    "C12": dict(
+        engine="twzmon.sel", level="exploration", design_ref="DESIGN.md 4-C12",
+        technique="runtime monitor: executed set (probe entries) and returned tuple vs. the monitor's own three-step closure; exhaustive small shapes x triples",
+        text="every (R, X, T) triple on every DAG with <=3 (thorough <=4) nodes, sampled triples on larger DAGs, through id / ExecNode / tag aliases "
+        "(shared tags, tag equal to another node's id), with and without setup nodes: executed set == documented closure, returned values "
+        "real or None, invalid triples raise ValueError and run nothing",
+        note=TB_SCHED,
+    ),
+    "C13": dict(
+        engine="twzmon.sel", level="exploration", design_ref="DESIGN.md 4-C13",
+        technique="runtime monitor: probe entries of debug / non-debug nodes under both RUN_DEBUG_NODES settings for the same operation",
+        text="flag off: no debug node entered in call / executor(any selection) / setup; flag on: whole-DAG call enters every debug node once, a "
+        "pulled-in debug node has all inputs executed; non-debug executed set, inputs and values identical in both settings; illegal DAG rejected",
+        note=TB_SCHED,
+    ),
+    "C11": dict(
+        engine="twzmon.hist", level="exploration", design_ref="DESIGN.md 4-C11",
+        technique="history monitor against a small sequential model of setup state (unique invocation numbers make reuse vs recompute observable)",
+        text="random histories over {call, executor(sel), setup(), setup(sel), deepcopy} in both flavours: each setup node entered at most once per "
+        "instance, only the setup nodes the selection needs, later executions return the first value, deep copies independent, illegal setup "
+        "dependencies rejected at build",
+        note=TB_HIST,
+    ),
+    "C15": dict(
+        engine="twzmon.hist", level="exploration", design_ref="DESIGN.md 4-C15",
+        technique="history monitor: every call after a random history must equal the reference for its own fresh argument nonces; executor second runs judged by the single-use rule",
+        text="histories with partial-argument calls, executors, compose, config reloads, failing calls, missing/surplus arguments, executor retries: the "
+        "next call returns the reference value and executes exactly the active call sites; a second executor run raises TawaziUsageError or "
+        "executes its complete selection with the right value",
+        note=TB_HIST,
+    ),
+    "C18": dict(
+        engine="twzmon.hist", level="exploration", design_ref="DESIGN.md 4-C18",
+        technique="runtime monitor on (caching run, restart run) pairs: probe entries vs. keys of the pickle, value vs. un-cached reference",
+        text="caching selection in {whole, targets, cache_deps_of} x restart selection: no node whose id is in the cache file is entered, executed "
+        "set == selection minus cached, value == un-cached reference, cache_deps_of file holds all ancestors of n but not n",
+        note=TB_HIST,
+    ),
+})
+ENGINES.append({"name": "twzmon.sel", "path": "twzmon/seljobs.py", "serves_properties": ["C12", "C13"],
+                "kind_free_text": "selection / debug-node monitors over probe entry events (runtime monitoring)"})
+ENGINES.append({"name": "twzmon.hist", "path": "twzmon/histjobs.py", "serves_properties": ["C11", "C15", "C18"],
+                "kind_free_text": "history generator + sequential model checker over client-boundary operation records (runtime monitoring)"})
+NOT_APPLICABLE[:] = [x for x in NOT_APPLICABLE if x["property_id"] not in CHECKS]
+
 NOTES = (
     "Technique family: runtime monitoring. Compiler sanitizers / TSan / valgrind do not apply (pure Python); their Python-level "
     "analogues are used (lockset monitor, forced pre-emption, stack sampling). Exit codes: 0 held on everything explored, 1 VIOLATION, "
